@@ -39,6 +39,21 @@ var actorNames = []string{"ann", "bob", "cy", "dee"}
 func genPlay(rng *rand.Rand, i int) *play {
 	p := &play{Index: i}
 	feat := func(s string) { p.Features = append(p.Features, s) }
+	if rng.Intn(10) == 0 {
+		// regression play for 27a1a66: a spotlight fails while the prompter
+		// keeps sending mood and act changes to the audition
+		feat("failing-spotlight-during-mood-changes")
+		var sb strings.Builder
+		fmt.Fprintf(&sb, "role test\n  :a true\n  spotlight sleep 0.0%d; exit 3\n  signal s event at (?P<ts_now>)(?P<event>x)\nend\n", 2+rng.Intn(7))
+		sb.WriteString("cast\n  bob plays test\nend\naudience\n  w watches bob s\n  j expects always: mood != 'green'\nend\n")
+		sb.WriteString("script\n  tempo 2ms\n  scene r mood starts red\n  scene b mood starts blue\n  storyline ")
+		for a := 0; a < 1+rng.Intn(3); a++ {
+			sb.WriteString(strings.Repeat("rb", 30+rng.Intn(40)) + " ")
+		}
+		sb.WriteString("\nend\n")
+		p.Cfg = sb.String()
+		return p
+	}
 	nActors := 1 + rng.Intn(4)
 	fast := rng.Intn(2) == 0       // spotlights that emit on their own, quickly
 	failing := rng.Intn(5) == 0    // an action that fails
